@@ -2,7 +2,7 @@
 *every* step of every run; the protocol recognisers of the Lean model (ledger, step ordering,
 WFHistory, notification automaton) are run over what the engine did."""
 import json, copy
-import common, explore, enginerun, machgen, fanproto
+import common, explore, enginerun, machgen, fanproto, framecmp
 from common import cj, pj
 from machgen import FN, ARN
 
@@ -113,6 +113,29 @@ def corpus(rng, quick):
         for nn, nested in (("par", npar), ("map", nmap)):
             out.append(S("handled-fail-vs-nested-%s-%s" % (nn, hn), outer(handler, nested), {"items": [1, 2]},
                          {"fa": [("err", "EA", "m")] + ([("ok",)] if hn == "retry-ok" else []), "fx": [("ok",)]}, {"fa": 5, "fx": 40}))
+    # a branch fails while a sibling is pending in a Task / Wait that has a Retry or Catch of its own (States.ALL,
+    # States.TaskFailed), or sits in a nested fan-out that has one: the cancellation (Task.Terminated) of the sibling must go
+    # through none of them — flat unhandled / caught / retried enclosing state
+    sib_catch = [{"ErrorEquals": ["States.ALL"], "Next": "SR"}]
+    siblings = (
+        ("task-catch-all", {"StartAt": "B", "States": {"B": T("fb", Catch=sib_catch), "SR": {"Type": "Pass", "End": True}}}),
+        ("task-catch-taskfailed", {"StartAt": "B", "States": {"B": T("fb", Catch=[{"ErrorEquals": ["States.TaskFailed"], "Next": "SR"}]),
+                                                               "SR": {"Type": "Pass", "End": True}}}),
+        ("task-retry-all", {"StartAt": "B", "States": {"B": T("fb", Retry=[{"ErrorEquals": ["States.ALL"], "IntervalSeconds": 1, "MaxAttempts": 2}])}}),
+        ("nested-catch-wait", {"StartAt": "N", "States": {"N": {"Type": "Parallel", "Next": "SR", "Catch": sib_catch, "Branches": [
+            {"StartAt": "W", "States": {"W": {"Type": "Wait", "Seconds": 2, "Next": "WP"}, "WP": {"Type": "Pass", "End": True}}}]},
+            "SR": {"Type": "Pass", "End": True}}}),
+        ("nested-catch-task", {"StartAt": "N", "States": {"N": {"Type": "Parallel", "Next": "SR", "Catch": sib_catch, "Branches": [
+            {"StartAt": "B", "States": {"B": T("fb")}}]}, "SR": {"Type": "Pass", "End": True}}}),
+    )
+    for hn, handler in (("none", {}), ("catch", {"Catch": [{"ErrorEquals": ["EA"], "Next": "R"}]}),
+                        ("retry", {"Retry": [{"ErrorEquals": ["EA"], "IntervalSeconds": 1, "MaxAttempts": 1}]})):
+        for sn, sib in siblings:
+            m = {"StartAt": "P", "States": {"P": dict({"Type": "Parallel", "Next": "Z", "Branches": [
+                {"StartAt": "A", "States": {"A": T("fa")}}, json.loads(json.dumps(sib))]}, **handler),
+                "Z": {"Type": "Pass", "End": True}, "R": {"Type": "Pass", "Result": "recovered", "End": True}}}
+            out.append(S("par-fail-vs-handled-sibling-%s-%s" % (sn, hn), m, {"x": 1},
+                         {"fa": [("err", "EA", "m"), ("ok",)], "fb": [("ok",)]}, {"fa": 5, "fb": 400}))
     # a branch / iteration whose (successful) last state outputs an object with an "Error" member: an Error Output handed on by
     # a Catch, or just data that looks like one; its StateExited is logged like any other
     out.append(S("branch-catch-then-succeed", {"StartAt": "P", "States": {"P": {"Type": "Parallel", "End": True, "Branches": [
@@ -151,6 +174,22 @@ def corpus(rng, quick):
         "Z": {"Type": "Pass", "End": True}}}, dict(big, none=[])))
     out.append(S("nonext-pass", {"StartAt": "A", "States": {"A": {"Type": "Pass"}}}, {"x": 1}))
     out.append(S("nonext-wait", {"StartAt": "W", "States": {"W": {"Type": "Wait", "Seconds": 1}}}, {"x": 1}))
+    # the "long form" of a function call (Resource …:rpcmessage:invoke[.waitForTaskToken] with Parameters.FunctionName /
+    # Payload): its request goes under a correlation id with a suffix, so cancelling it when a sibling fails takes the
+    # canceller's own key; alone, pending while a sibling fails (unhandled / caught / retried), and in a Map iteration
+    INVOKE = "arn:aws:states:local::rpcmessage:invoke"
+    inv = lambda fn, **kw: dict({"Type": "Task", "Resource": INVOKE, "Parameters": {"FunctionName": FN + fn, "Payload": {"x.$": "$.x"}}, "End": True}, **kw)
+    out.append(S("seq-invoke-longform", {"StartAt": "T", "States": {"T": inv("f1")}}, {"x": 1}, {"f1": [("ok",)]}, {"f1": 20}))
+    for tag, extra in (("", {}), ("-catch", {"Catch": [{"ErrorEquals": ["States.ALL"], "Next": "R"}]}),
+                       ("-retry", {"Retry": [{"ErrorEquals": ["States.ALL"], "IntervalSeconds": 1, "MaxAttempts": 1}]})):
+        out.append(S("par-invoke-longform-vs-fail" + tag, {"StartAt": "P", "States": {"P": dict({"Type": "Parallel", "End": True, "Branches": [
+            {"StartAt": "A", "States": {"A": inv("f1")}},
+            {"StartAt": "B", "States": {"B": T("f2")}}]}, **extra), "R": {"Type": "Pass", "End": True}}},
+                     {"x": 1}, {"f1": [("ok",)], "f2": [("err", "Boom", "m")]}, {"f1": 80, "f2": 10}))
+    out.append(S("map-invoke-longform-vs-fail", {"StartAt": "M", "States": {"M": {"Type": "Map", "ItemsPath": "$.items", "End": True,
+        "Iterator": {"StartAt": "C", "States": {"C": {"Type": "Choice", "Choices": [{"Variable": "$.x", "NumericEquals": 2, "Next": "F"}], "Default": "A"},
+                                                 "A": inv("f1"), "F": {"Type": "Fail", "Error": "Bad", "Cause": "item"}}}}}},
+                 {"items": [{"x": 1}, {"x": 2}, {"x": 3}]}, {"f1": [("ok",)]}, {"f1": 60}))
     # definitions the engine cannot interpret at one site (C18's subject; here only the lifecycle / ledger / history laws are
     # evaluated, the reference semantics is not asked): the empty string as a branch's StartAt or as a transition target —
     # an event whose state name is empty is what the engine takes for the start of a new execution
@@ -239,6 +278,31 @@ def fan_witnesses():
         "Branches": [{"StartAt": "A", "States": {"A": T("fa")}}, {"StartAt": "B", "States": {"B": T("fb")}}]}}},
         {"x": 1}, {"fa": [("err", "EA", "m"), ("ok",)], "fb": [("ok",), ("ok",)]}, {"fa": 5, "fb": 10},
         extra={"finding": "C06-F5", "stall_at": [10, 13], "errors": ["EA"]}))
+    # C06-F6: a Task / Wait pending in a fan-out nested (depth 2 and 3) in a sibling branch when the enclosing state fails and
+    # the failure is retried / caught (/ not handled: the execution ends, which has always cancelled everything)
+    def leaf(kind):
+        if kind == "task":
+            return {"StartAt": "X", "States": {"X": T("fx")}}
+        return {"StartAt": "X", "States": {"X": {"Type": "Wait", "Seconds": 2, "Next": "Y"}, "Y": {"Type": "Pass", "End": True}}}
+
+    def nest(depth, kind):
+        b = leaf(kind)
+        names = ["N", "Q"]
+        for d in range(depth - 1):
+            nm = names[depth - 2 - d]
+            b = {"StartAt": nm, "States": {nm: {"Type": "Parallel", "End": True, "Branches": [b]}}}
+        return b
+    handlers = (("retry", {"Retry": [{"ErrorEquals": ["EA"], "IntervalSeconds": 1, "MaxAttempts": 1}]}),
+                ("catch", {"Catch": [{"ErrorEquals": ["EA"], "Next": "R"}]}), ("none", {}))
+    for hn, handler in handlers:
+        for depth in (2, 3):
+            for kind in ("task", "wait"):
+                m = {"StartAt": "P", "States": {"P": dict({"Type": "Parallel", "Next": "Z", "Branches": [
+                    {"StartAt": "A", "States": {"A": T("fa")}}, nest(depth, kind)]}, **handler),
+                    "Z": {"Type": "Pass", "End": True}, "R": {"Type": "Pass", "Result": "recovered", "End": True}}}
+                out.append(S("nested-pending-%s-d%d-%s" % (hn, depth, kind), m, {"x": 1},
+                             {"fa": [("err", "EA", "m"), ("ok",)], "fx": [("ok",)]}, {"fa": 5, "fx": 400},
+                             extra={"finding": "C06-F6", "errors": ["EA"]}))
     return out
 
 
@@ -320,12 +384,14 @@ class Monitor(object):
         self.last_hist_len = 0
         self.step_no = 0
         self.acked_ids = set()
+        self.rec = framecmp.Recorder()     # the frames per step with their messages (C03.frames_match_reference)
 
     def tagcode(self, fr):
         return fr.get("ch", 0) * 100000 + fr["tag"]
 
     def __call__(self, s, ea, step):
         self.step_no += 1
+        self.rec(s, ea, step)
         log = s.broker.log
         cur = []
         engine_conns = {i.conn.ident for i in s.instances if i.alive and i.conn is not None}
@@ -460,6 +526,14 @@ class Monitor(object):
                 self.problems.append(("C03.drained", leaks))
 
 
+def frames_law(chk, machine, mo, rec):
+    """C03.frames_match_reference: the engine's frames, handler step by handler step, against the steps Asl.run predicts"""
+    mode, fp, nst = framecmp.compare(mo, rec.steps, rec.start, framecmp.fan_entered(machine, mo))
+    chk.dist("frames_vs_reference.%s" % mode)
+    chk.dist("frames_vs_reference.%s.steps" % mode, nst)
+    return [("C03.frames_match_reference", {"mode": mode, "differences": fp})] if fp else []
+
+
 def hist_line(hist):
     evs = []
     for e in hist:
@@ -580,8 +654,14 @@ def run_property(chk, prop, laws, quick_gen=300, thorough_gen=4000, scns=None, n
             want_hist = "C09" in laws and speaks and scn.sm_type == "STANDARD"
             # C11.notifications_match_reference: the same runs (EXPRESS ones too: they are notified like any other)
             want_notes = "C11" in laws and speaks
+            # C03.frames_match_reference: the canonical ones of those runs (the prediction is that of the canonical schedule)
+            want_frames = "C03" in laws and speaks and kind == "canonical"
             ab = None
             if tracer is not None:
+                # the direct law: no task / wait of a dead attempt survives the step in which its enclosing attempt failed
+                surv = fanproto.dead_survivors(tracer)
+                if surv:
+                    probs.append(("C06.no_pending_task_of_dead_attempt", {"survivors": surv[:4], "steps_with_survivors": len(surv)}))
                 try:
                     ab = fanproto.Abstraction(tracer, scn.machine).run()
                 except fanproto.Unsupported as e:
@@ -593,7 +673,8 @@ def run_property(chk, prop, laws, quick_gen=300, thorough_gen=4000, scns=None, n
                                           [q["t"] for q in s.rpc_requests]) if want_hist else None,
                                  "notes": [n["detail"] for n in mon.notes] if want_notes else None,
                                  "mline": (__import__("props.c01", fromlist=["x"]).model_line(scn.machine, scn.data, ea, pl.oracle())
-                                           if (pl is not None and (expect is not None or (skip_multi and not hand) or want_hist or want_notes)) else None),
+                                           if (pl is not None and (expect is not None or (skip_multi and not hand) or want_hist or want_notes or want_frames)) else None),
+                                 "frames": mon.rec if want_frames else None,
                                  "pre": expect.pre(scn, s, ea, pl, fv) if expect is not None else None, "scn": scn, "fv": fv})
             # Lean recognisers over what the engine did
             if scn.sm_type == "STANDARD":
@@ -630,7 +711,8 @@ def run_property(chk, prop, laws, quick_gen=300, thorough_gen=4000, scns=None, n
         probs = pr["probs"]
         if expect is not None:
             probs = probs + expect.post(pr["scn"], pr["fv"], pr["pre"], mo)
-        if skip_multi and not pr["hand"] and mo is not None and mo.get("tieFail" if pr["kind"] == "canonical" else "multiFail"):
+        if (skip_multi or pr["scn"].extra.get("tie_only")) and not pr["hand"] and mo is not None and \
+                mo.get("tieFail" if pr["kind"] == "canonical" else "multiFail"):
             chk.dist("skipped.multiple_failures(C06)")
             continue
         if pr["hist"] is not None and mo is not None:
@@ -648,6 +730,8 @@ def run_property(chk, prop, laws, quick_gen=300, thorough_gen=4000, scns=None, n
             chk.dist("notifications_vs_reference.%s.%s" % (pr["kind"], nmode))
             if np_:
                 probs = probs + [("C11.notifications_match_reference", {"differences": np_})]
+        if pr.get("frames") is not None and mo is not None:
+            probs = probs + frames_law(chk, pr["case"]["machine"], mo, pr["frames"])
         seen = set()
         for law, detail in probs:
             if not any(law.startswith(l) for l in laws) or law in seen:
@@ -702,7 +786,14 @@ def run_property(chk, prop, laws, quick_gen=300, thorough_gen=4000, scns=None, n
                        "Asl.run predicts under every explored schedule — as sequences without fan-outs, as multisets with fan-outs "
                        "none of which failed, inclusion of the Execution… / StateExited / LambdaFunctionSucceeded events otherwise; "
                        "C11.notifications_match_reference: the status notifications (statuses in order, input / output / error "
-                       "payload) against the model's"
+                       "payload) against the model's; C03.frames_match_reference (canonical runs of those executions): the broker "
+                       "frames of the engine connection handler step by handler step — deliver / publish (event with its state and "
+                       "branch, task request, notification) / ack, each with the message it concerns (matched by address: state, "
+                       "branch indices, occurrence; request by its event, reply by its request), at their instants — against the "
+                       "steps Asl.run predicts (harness/framecmp.py): as sequences without fan-outs, per instant as multisets of "
+                       "steps with fan-outs none of which failed, per instant as multisets of frames when two unlike branches "
+                       "complete a join at the same instant, counts + the engine's own ledger when a fan-out failed "
+                       "(frames_vs_reference.* in the distribution)"
                        % n_rand)
 
 
